@@ -75,7 +75,7 @@ def write_replay(pid, r, label, ob, sol, outdir, known=False, want_status=False)
     data = {
         "property": pid, "obligation": f"{r.unit.name}/{ob.name}", "config": label, "function": r.unit.target, "source_sha256_16": r.sha,
         "solver": "z3 (refute mode: quantifier-free grounding)", "solver_log": sol.get("log"),
-        "model": small, "probes": probe_values(ob, model),
+        "model": small, "probes": sol.get("probes") or {},
         "goal": ob.goal.sexpr()[:3000], "known_finding": known, "reproduced": False, "replay_output": None,
     }
     reproduced = False
